@@ -77,6 +77,14 @@ def handleSsf : List Sexp → Option String
     match meanChain a (← axes.mapM asInt?) with
     | .ok r => pure (toString (sArr r))
     | .error e => pure ("(err " ++ hExc e ++ ")")
+  | [atom "ssf-meaneval", c, v, list sh, list dims, list data] => do
+    -- the call TEXT, parsed by `parseCall` (eval_function's own fuel) and evaluated by `evalMean`; `v` names the array
+    let a : Arr := ⟨← sh.mapM asNat?, ← dims.mapM hStr?, ← data.mapM asInt?, 1⟩
+    let cs ← hStr? c
+    let vn ← hStr? v
+    match evalMean (fun s => if s = vn then some a else none) (parseCall cs.length cs) with
+    | .ok r => pure (toString (sArr r))
+    | .error e => pure ("(err " ++ hExc e ++ ")")
   | [atom "ssf-meangrid", list sh, list dims, list data, list maps, list axes] => do
     let a : Arr := ⟨← sh.mapM asNat?, ← dims.mapM hStr?, ← data.mapM asInt?, 1⟩
     match meanGridChain ⟨a, ← maps.mapM sMap?⟩ (← axes.mapM asInt?) with
